@@ -253,6 +253,12 @@ def corpus(deep=False):
         T.binop("Eq", T.lst(T.Int(1)), T.lst(T.Int(1), T.lst(T.Int(2), T.Int(3)))),
     ]
     out += [(t, False) for t in extras]
+    # literals whose CONTENT is layout: blanks, tabs, newlines inside a string / geography body belong to the value, whatever the
+    # layout around them is
+    for body in ("a  b", "a\tb", " a ", "a\nb", "a \n  b", "x  eq  y", "  ", "\t", "a\u00a0 b"):
+        out += [(t, False) for t in (T.binop("Eq", s, T.Str(body)), T.binop("In", s, T.lst(T.Str(body), T.Str("k"))), T.call("contains", s, T.Str(body)),
+                                     T.lam(T.I("xs"), "Any", "x", T.binop("Eq", T.path("x", "p"), T.Str(body))))]
+    out += [(T.binop("Eq", T.I("geo"), ("Geography", gb)), False) for gb in ("POINT(1  2)", "POINT(1\t2)", "SRID=4326;POINT(1   2)")]
     b = typed.F("b")
     boolean_extras = [
         T.binop("Eq", b, T.Bool(True)), T.binop("Eq", T.Bool(True), b), T.binop("NotEq", b, T.Bool(False)), T.binop("Eq", T.call("contains", s, T.Str("a")), T.Bool(True)),
